@@ -202,6 +202,8 @@ func runC03(c *Ctx) {
 	}
 	// round 2: the operations of Model/MeshMore.lean and crop on non-identity clouds (c03_more.go)
 	c.moreOps(40+c.N/2, "c03.holds.harness_ok", c.emitMore03)
+	// every Transformer struct entry point next to its free function (c03_transformers.go)
+	c.transformerPairs(20 + c.N/8)
 }
 
 func (c *Ctx) seq03(all []string) {
